@@ -399,23 +399,33 @@ def main(run):
             if len(slowest) > 400:
                 slowest.sort(key=lambda x: x[0], reverse=True)
                 del slowest[12:]
-    # CPU-budget verdicts: re-measure up to three cases per location, one at a time, on the now quiet machine
+    # CPU-budget verdicts: re-measure up to three cases per location, one at a time, on the now quiet machine.  The *location* is taken
+    # from the re-measurement too: a worker that shares the cores (and whose budget exception a bare except swallowed) was seen to name a
+    # frame of an earlier case
     confirmed = unconfirmed = 0
     for key, items in sorted(run._pending_cpu.items()):
-        hit = None
-        for case, what in items[:3]:
+        last_key = None
+        for n_item, (case, what) in enumerate(items):
+            if n_item >= 3:
+                if last_key:
+                    run.violation(last_key, what + " [location confirmed on other cases of this group]", {"case": case})
+                else:
+                    unconfirmed += 1
+                continue
             c2 = dict(case, _confirming=True)
+            hit = False
             for _, ob2 in pool.run_cases("checks.c01:work", [c2], workers=1, deadline_s=200, rlimit_as=int(1.5 * 2**30)):
                 if ob2.get("_cpu_exhausted") or ob2.get("_cpu_budget_fired_at") or (ob2.get("_timeout") and ob2.get("cpu_s", 0) > 20):
-                    hit = (case, what)
+                    at2 = ob2.get("_cpu_exhausted_at") or ob2.get("_cpu_budget_fired_at") or ob2.get("_stuck_at") or "unknown"
+                    rec2 = case["recipe"]
+                    last_key = f"C01:{at2}:cpu-budget-exceeded-10x"
+                    run.violation(last_key, f"{case['kind']} via {case['mode']}: CPU time exceeded 10x the budget (2 s + 4 us/byte), still running in {at2} "
+                                            f"({rec2.get('family') or 'identity'}/{rec2.get('op')} of {rec2['src']}) [confirmed by a re-measurement alone]", {"case": case})
+                    hit = True
             if hit:
-                break
-        if hit:
-            confirmed += 1
-            for case, what in items:
-                run.violation(key, what + " [confirmed by a re-measurement alone]", {"case": case})
-        else:
-            unconfirmed += len(items)
+                confirmed += 1
+            else:
+                unconfirmed += 1
     run.count("cpu_budget_verdicts_confirmed_alone", confirmed)
     run.count("cpu_budget_exceeded_only_while_sharing_the_cores", unconfirmed)
     for k in corpus.KINDS:
